@@ -154,6 +154,9 @@ func replayFile(path string) int {
 		fmt.Fprintln(os.Stderr, "job not found:", v.Job)
 		return 2
 	}
+	if job.Scenario == nil && job.FindScenario != nil {
+		job.Scenario = job.FindScenario(v.Scenario)
+	}
 	if v.Sched != nil && job.Scenario != nil {
 		o, bad := explore.Replay(job.Scenario, v.Sched.Variant, v.Sched.Choices, v.Sched.Widths, v.Sched.ClockAlt, true)
 		for _, l := range o.Trace {
@@ -165,6 +168,9 @@ func replayFile(path string) int {
 		}
 		for i, c := range o.Conns {
 			fmt.Printf("---- transcript of connection %d\n%s", i, strings.ReplaceAll(c.Transcript(), "\r\n", "\\r\\n\n"))
+		}
+		for _, rc := range o.Races {
+			fmt.Println("---- race:", rc.String())
 		}
 		fmt.Println("---- outcome:", o.Kind, "|", o.BlockedSig())
 		if o.Crash != nil {
